@@ -64,7 +64,15 @@ def main(argv=None):
             rc = 0
             ctx = Ctx(a.root, a.tier)
             for pid in sorted(props.PROPS):
-                rc = max(rc, run_property(pid, a.tier, a.root, None, a.list_findings, ctx=ctx, no_evidence=a.no_evidence))
+                try:
+                    rc = max(rc, run_property(pid, a.tier, a.root, None, a.list_findings, ctx=ctx, no_evidence=a.no_evidence))
+                except AnalysisError as e:
+                    print("ANALYSIS-ERROR %s: %s" % (pid, e))
+                    rc = max(rc, 2)
+                except Exception:
+                    print("ANALYSIS-ERROR %s: internal error in the checker" % pid)
+                    traceback.print_exc()
+                    rc = max(rc, 2)
             return rc
         return run_property(a.prop, a.tier, a.root, a.replay, a.list_findings, no_evidence=a.no_evidence)
     except AnalysisError as e:
